@@ -16,7 +16,10 @@
      * crash s c keeps the durable state; for every directory an arbitrary subset (bit mask, in
        program order) of its pending operations survives, independently per operation; a file
        with unsynced data comes back with its durable contents or with ARBITRARY bytes supplied
-       by the choice (covers: lost, any prefix, zero-filled, garbage).
+       by the choice (covers: lost, any prefix, zero-filled, garbage). A choice assigns a mask
+       to every directory path and optional contents to every inode; choice_of builds one from
+       explicit association lists (what the extracted crash monitor enumerates); the theorems
+       quantify over all choices.
    Not modelled (trusted base of checks/c13.py): symbolic links, fsync errors, inode flags other
    than "immutable", permissions (the immutable FLAG is modelled when the process may set it). *)
 From SL Require Import Base.Bytes.
